@@ -445,7 +445,7 @@ def run(c, facts, tier):
     for fn in facts.nontest_fns():
         if fn.module[:1] != ("find_parser",):
             continue
-        for n in F.find_all(fn.body, lambda n: n.get("k") == "path" and len(n["segs"]) >= 2 and n["segs"][-1] == "Precedence"):
+        for n in F.find_all(fn.body, lambda n: n.get("k") == "path" and len(n["segs"]) >= 2 and n["segs"][-1] == "Precedence", skip_pats=True):
             ctor_sites.append(fn.key)
     c.ob("C01.parens", "find_parser", "Operator::Precedence has no constructor site in the parser", not ctor_sites, "constructed in %s" % ctor_sites if ctor_sites else "0 sites")
 
